@@ -288,6 +288,10 @@ def nibabel_image_to_precomputed(img,
         prescaling_inter = proxy.inter
         proxy._slope = prescaling_slope * postscaling_slope
         proxy._inter = prescaling_inter * postscaling_slope + postscaling_inter
+        # The type of the scaled data is not always float64 (nibabel uses a
+        # wider floating-point type for 64-bit integers), so check it
+        zero_index = tuple(0 for _ in shape)
+        input_dtype = proxy[zero_index].dtype
 
     # Transformations applied to the voxel values
     chunk_transformer = (
